@@ -13,6 +13,8 @@ def prelude(p):
     p.fn("apply", [("f", FN1), ("x", INT32)], INT32, CallV(Var("f"), Var("x")))
     p.fn("top", [("x", INT32)], INT32, Bin("+", Var("x"), Int(500)))
     p.fn("top0", [], INT32, Int(77))
+    p.enum("H", [("Hold", [FN1]), ("Empty", [])])
+    p.fn("wrap_pair", [("q", TTuple(FN1, INT32))], TTuple(TTuple(FN1, INT32), INT32), Tuple(Var("q"), Int(2)))
 
 
 def body_expr(caps):
@@ -62,6 +64,21 @@ def flow_stmts(flow):
         return [Let("g", Match(Ctor(K, "K1", Int(0)), [(PCtor("K1", PWild), Var("c")), (PCtor("K0"), FnRef("top"))]), ty=FN1), Let("res", CallV(Var("g"), Int(1)))]
     if flow == "closure-in-closure":
         return [Let("d", Lam([("b", INT32)], Bin("+", CallV(Var("c"), Var("b")), Int(1)))), Let("res", CallV(Var("d"), Int(1)))]
+    if flow == "nested-tuple":
+        return [Let("t", Tuple(Tuple(Var("c"), Int(1)), Int(2))), Let(PTuple(PVar("inner"), PWild), Var("t")), Let(PTuple(PVar("g"), PVar("one")), Var("inner")),
+                Let("res", CallV(Var("g"), Var("one")))]
+    if flow == "nested-tuple-3":
+        return [Let("t", Tuple(Int(0), Tuple(Int(1), Tuple(Var("c"), Int(2))))), Let(PTuple(PWild, PTuple(PWild, PTuple(PVar("g"), PVar("two")))), Var("t")),
+                Let("res", CallV(Var("g"), Bin("-", Var("two"), Int(1))))]
+    if flow == "tuple-from-function":
+        return [Let("t", Call("wrap_pair", Tuple(Var("c"), Int(1)))), Let(PTuple(PVar("inner"), PWild), Var("t")), Let(PTuple(PVar("g"), PVar("one")), Var("inner")),
+                Let("res", CallV(Var("g"), Var("one")))]
+    if flow == "vec":
+        return [Let("vs", Call("vec_push", Call("vec_new"), Var("c")), ty=TVec(FN1)), Let("g", Call("vec_get", Var("vs"), Int(0)), ty=FN1), Let("res", CallV(Var("g"), Int(1)))]
+    if flow == "ref-cell":
+        return [Let("cell", Call("ref", Var("c"))), Let("g", Call("ref_get", Var("cell"))), Let("res", CallV(Var("g"), Int(1)))]
+    if flow == "enum-payload":
+        return [Let("h", Ctor(TAdt("H"), "Hold", Var("c"))), Let("res", Match(Var("h"), [(PCtor("Hold", PVar("g")), CallV(Var("g"), Int(1))), (PCtor("Empty"), Int(0))]))]
     if flow == "mutate-then-call":
         return [Do(Call("ref_set", Var("r"), Int(7))), Let("res", CallV(Var("c"), Int(1)))]
     if flow == "shadow-then-call":
@@ -71,7 +88,7 @@ def flow_stmts(flow):
     raise ValueError(flow)
 
 
-FLOWS = ["let", "tuple", "struct", "array", "arg", "branch", "match-result", "closure-in-closure", "mutate-then-call", "shadow-then-call", "called-twice"]
+FLOWS = ["nested-tuple", "nested-tuple-3", "tuple-from-function", "vec", "ref-cell", "enum-payload", "let", "tuple", "struct", "array", "arg", "branch", "match-result", "closure-in-closure", "mutate-then-call", "shadow-then-call", "called-twice"]
 
 
 def program(caps, depth, flow, idx):
